@@ -49,7 +49,7 @@ import warnings
 
 import numpy as np
 
-from vf.rt.harness import oracle, Bounded
+from vf.rt.harness import oracle, Bounded, ORACLES as _ORACLES
 
 ANY = ('<any>',)          # model value that compares equal to everything (text of the 'bins' descriptor)
 
@@ -62,21 +62,30 @@ K_ODD_SINGLE = 'odd_even_split,single-value'
 K_SUBT_EMPTY = 'subset_time,no-time-point-in-range'
 # labels whose defect has been repaired in /repo (aed6debb, 95e01e94, 1694cd79, 1f4e5f7f, 6122a8e4): histories continue through such steps
 REPAIRED = {K_TAO_SINGLE, K_TSORT, K_BIN_LIST, K_TAO_DUP, K_ODD_SINGLE, K_SUBT_EMPTY}
+# input classes found by the dimension sweeps (tools/SWEEP_BRIEF.md) that fail on the unchanged tree: PENDING TRIAGE, their
+# registrations are behind `if False:  # pending triage: <class>` (histories: the step is classified, and skipped by `_pending`)
+K_VEC_TAO = 'time_as_observations,vector-valued-descriptor'
+K_VEC_TAC = 'time_as_channels,vector-valued-descriptor'
+K_VEC_DF = 'to_df,vector-valued-descriptor'
+K_BIN_PYLIST = 'bin_time,bins-as-python-lists'
+PENDING = {K_VEC_TAO, K_VEC_TAC, K_VEC_DF, K_BIN_PYLIST}
 
 
 # =====================================================================================================
 # the abstract view and the literal models of the operations
 # =====================================================================================================
 class View:
-    __slots__ = ('temporal', 'rows', 'cols', 'times', 'val', 'obs', 'ch', 'tm', 'desc', 'tlist', 'fl', 'scale', 'tol')
+    __slots__ = ('temporal', 'rows', 'cols', 'times', 'val', 'obs', 'ch', 'tm', 'desc', 'tlist', 'fl', 'scale', 'tol', 'mint')
 
-    def __init__(self, temporal, rows, cols, times, val, obs, ch, tm, desc, tlist=False, fl=False, scale=1.0, tol=1e-9):
+    def __init__(self, temporal, rows, cols, times, val, obs, ch, tm, desc, tlist=False, fl=False, scale=1.0, tol=1e-9,
+                 mint=False):
         self.temporal, self.rows, self.cols, self.times = temporal, rows, cols, times
         self.val, self.obs, self.ch, self.tm, self.desc = val, obs, ch, tm, desc
         self.tlist = tlist      # bookkeeping for classification only: the real time descriptors are python lists
         self.fl = fl            # bookkeeping only: numeric obs descriptors of the real object are float arrays
         self.scale = scale      # unit of the real measurements: real value = scale * model value (sweep: extreme units)
         self.tol = tol          # relative tolerance for measurements (1e-6 for float32 data, 1e-9 otherwise)
+        self.mint = mint        # bookkeeping only: the real measurements are of an integer dtype
 
     def clone(self, **kw):
         a = {k: getattr(self, k) for k in self.__slots__}
@@ -202,7 +211,12 @@ def _m_unary(op, v):
                 desc[n] = vals[0]
             else:
                 obs[n] = dict(zip(v.rows, vals))
-        return [v.clone(ch={chd: v.ch[chd]}, obs=obs, desc=desc)]
+        # sweep (order of the items in the table): op[3] == 'perm': the `channels` argument lists the channel columns in
+        # reversed order -> the channels of the result are in that order;  'rows': the rows of the table are handed over in
+        # reversed order -> so are the observations
+        how = op[3] if len(op) > 3 else None
+        return [v.clone(ch={chd: v.ch[chd]}, obs=obs, desc=desc, cols=v.cols[::-1] if how == 'perm' else v.cols,
+                        rows=v.rows[::-1] if how == 'rows' else v.rows)]
     # ---- temporal only
     if k == 'split_time':
         by, out = op[1], []
@@ -223,7 +237,7 @@ def _m_unary(op, v):
                 for c in v.cols:
                     val[(r, c, nt)] = sum(v.val[(r, c, t)] for t in members) / len(members)
             tmb[nt] = sum(float(v.tm[by][t]) for t in members) / len(members)
-        return [v.clone(times=times, val=val, tm={by: tmb, 'bins': {t: ANY for t in times}}, tlist=False)]
+        return [v.clone(times=times, val=val, tm={by: tmb, 'bins': {t: ANY for t in times}}, tlist=False, mint=False)]
     if k == 'tao':
         by = op[1]
         order = [t for u in _uniq([v.tm[by][t] for t in v.times]) for t in v.times if _eq(v.tm[by][t], u)]
@@ -232,14 +246,14 @@ def _m_unary(op, v):
         obs = {n: {('ot', r, t): v.obs[n][r] for t in order for r in v.rows} for n in v.obs}
         for n in v.tm:
             obs[n] = {('ot', r, t): v.tm[n][t] for t in order for r in v.rows}
-        return [View(False, rows, v.cols, [None], val, obs, v.ch, {}, v.desc, False, True)]
+        return [View(False, rows, v.cols, [None], val, obs, v.ch, {}, v.desc, False, True, v.scale, v.tol, False)]   # float result
     if k == 'tac':
         cols = [('ct', c, t) for c in v.cols for t in v.times]
         val = {(r, ('ct', c, t), None): v.val[(r, c, t)] for r in v.rows for c in v.cols for t in v.times}
         ch = {n: {('ct', c, t): v.ch[n][c] for c in v.cols for t in v.times} for n in v.ch}
         for n in v.tm:
             ch[n] = {('ct', c, t): v.tm[n][t] for c in v.cols for t in v.times}
-        return [View(False, v.rows, cols, [None], val, v.obs, ch, {}, v.desc, False, v.fl)]
+        return [View(False, v.rows, cols, [None], val, v.obs, ch, {}, v.desc, False, v.fl, v.scale, v.tol, v.mint)]
     raise ValueError(f'unknown operation {op}')
 
 
@@ -254,7 +268,23 @@ def _apply_model(op, cur):
 # =====================================================================================================
 # the same operations on the real objects
 # =====================================================================================================
-def _r_unary(op, d):
+def _argform(value, form):
+    """sweep (container types of index arguments): a list of values as list / tuple / ndarray"""
+    if isinstance(value, list):
+        return {'list': list, 'tuple': tuple, 'ndarray': np.array}[form](value)
+    return value
+
+
+def _binform(bins, form):
+    """sweep: the bins as float ndarrays (default), int ndarrays (integral time axis), python lists"""
+    if form == 'list':
+        return [[float(x) for x in b] for b in bins]
+    if form == 'int':
+        return [np.array([int(round(x)) for x in b], dtype=int) for b in bins]
+    return [np.array(b, dtype=float) for b in bins]
+
+
+def _r_unary(op, d, form='list', bform='float'):
     from rsatoolbox.data import Dataset
     k = op[0]
     if k == 'copy':
@@ -263,9 +293,9 @@ def _r_unary(op, d):
         d.sort_by(op[1])
         return [d]
     if k == 'subset_obs':
-        return [d.subset_obs(op[1], op[2])]
+        return [d.subset_obs(op[1], _argform(op[2], form))]
     if k == 'subset_channel':
-        return [d.subset_channel(op[1], op[2])]
+        return [d.subset_channel(op[1], _argform(op[2], form))]
     if k == 'split_obs':
         return list(d.split_obs(op[1]))
     if k == 'split_channel':
@@ -277,6 +307,11 @@ def _r_unary(op, d):
     if k == 'df':
         names = list(d.channel_descriptors[op[1]])
         df = d.to_df(channel_descriptor=op[1])
+        how = op[3] if len(op) > 3 else None
+        if how == 'perm':
+            return [Dataset.from_df(df, channels=names[::-1], channel_descriptor=op[1])]
+        if how == 'rows':
+            return [Dataset.from_df(df.iloc[::-1], channels=names, channel_descriptor=op[1])]
         if op[2]:
             return [Dataset.from_df(df, channels=names, channel_descriptor=op[1])]
         return [Dataset.from_df(df, channel_descriptor=op[1])]
@@ -285,7 +320,7 @@ def _r_unary(op, d):
     if k == 'subset_time':
         return [d.subset_time(op[1], op[2], op[3])]
     if k == 'bin_time':
-        return [d.bin_time(op[1], [np.array(b, dtype=float) for b in op[2]])]
+        return [d.bin_time(op[1], _binform(op[2], bform))]
     if k == 'tao':
         return [d.time_as_observations(op[1])]
     if k == 'tac':
@@ -293,13 +328,13 @@ def _r_unary(op, d):
     raise ValueError(f'unknown operation {op}')
 
 
-def _apply_real(op, cur):
+def _apply_real(op, cur, form='list', bform='float'):
     from rsatoolbox.data.ops import merge_datasets
     if op[0] == 'merge':
         return [merge_datasets([cur[i] for i in op[1]])]
     if op[0] == 'pick':
         return [cur[op[1]]]
-    return [w for d in cur for w in _r_unary(op, d)]
+    return [w for d in cur for w in _r_unary(op, d, form, bform)]
 
 
 def _check_average(d, v, by):
@@ -318,8 +353,9 @@ def _check_average(d, v, by):
             return f'average_dataset_by({by!r}): n_obs for label {u!r} is {n_obs[i]}, {len(rows)} rows carry it'
         for j, c in enumerate(v.cols):
             m = sum(v.val[(r, c, None)] for r in rows) / len(rows)
-            if not _eq(avg[i][j], m):
-                return (f'average_dataset_by({by!r}): average for label {u!r}, channel {j} is {avg[i][j]}, the mean of the '
+            if not _eq(avg[i][j] / v.scale, m, v.tol):
+                return (f'average_dataset_by({by!r}): average for label {u!r}, channel {j} is {avg[i][j]}'
+                        + (f' (in units of {v.scale:g}: {avg[i][j] / v.scale})' if v.scale != 1.0 else '') + ', the mean of the '
                         f'{len(rows)} rows labelled {u!r} is {m}')
     return None
 
@@ -341,9 +377,10 @@ def _diff(d, v):
     for i, r in enumerate(v.rows):
         for j, c in enumerate(v.cols):
             for k, t in enumerate(v.times):
-                got = m[i, j, k] if v.temporal else m[i, j]
-                if not _eq(got, v.val[(r, c, t)]):
-                    return (f'measurement at [{i},{j}' + (f',{k}' if v.temporal else '') + f'] is {got}; the row is '
+                got = (m[i, j, k] if v.temporal else m[i, j]) / v.scale
+                if not _eq(got, v.val[(r, c, t)], v.tol):
+                    return (f'measurement at [{i},{j}' + (f',{k}' if v.temporal else '') + f'] is {got}'
+                            + (f' (in units of {v.scale:g})' if v.scale != 1.0 else '') + '; the row is '
                             f'labelled as observation {r}, channel {c}, time {t} whose value is {v.val[(r, c, t)]}')
     axes = [('obs', d.obs_descriptors, v.obs, v.rows), ('channel', d.channel_descriptors, v.ch, v.cols)]
     if v.temporal:
@@ -391,8 +428,9 @@ def _ids(n, salt):
     return [int(x) + 1 for x in np.random.RandomState(100 + 10 * salt + n).permutation(9)[:n]]
 
 
-def _base_case(kind, n, seed, container='array', tm_extra=True, tmono=True):
-    """JSON-able description of a base dataset; labels are drawn here so that the case is self-describing"""
+def _base_case(kind, n, seed, container='array', tm_extra=True, tmono=True, **sweep):
+    """JSON-able description of a base dataset; labels are drawn here so that the case is self-describing.
+    Sweep keys (all optional, see `_build`): mdtype, scale, tunit, ldtype, korder, vec, argform, binform, keep, twice"""
     rs = np.random.RandomState(seed)
     no, nc, nt = n
     case = dict(kind=kind, n=list(n), container=container,
@@ -400,7 +438,22 @@ def _base_case(kind, n, seed, container='array', tm_extra=True, tmono=True):
                 roi=[_ROIS[i] for i in rs.randint(0, 3, nc)])
     if kind == 'temporal':
         case.update(phase=[_PHASES[i] for i in rs.randint(0, 3, nt)], tm_extra=bool(tm_extra), tmono=bool(tmono))
+    case.update(sweep)
     return case
+
+
+_INT_TYPES = ('int64', 'int32', 'int16', 'uint8')
+_VEC = ('ovec', 'cvec', 'tvec')          # names of the vector-valued descriptors (never used as `by`)
+
+
+def _sentinel(mdtype, o, c, t, pos, shape):
+    """distinct value per cell; for the narrow integer types near the top of the range, so that a sum of two overflows"""
+    if mdtype == 'uint8':
+        i, j, k = pos
+        return 255.0 - (i * shape[1] * shape[2] + j * shape[2] + k)
+    if mdtype == 'int16':
+        return 31000.0 + 100.0 * o + 10.0 * c + t
+    return 100.0 * o + 10.0 * c + t
 
 
 def _build(case):
@@ -412,7 +465,17 @@ def _build(case):
     tid = _ids(nt, 3) if temporal else [0]
     if temporal and case.get('tmono', True):
         tid = sorted(tid)
-    wrap = (lambda x: np.array(x)) if case.get('container', 'array') == 'array' else (lambda x: list(x))
+    container = case.get('container', 'array')
+    wrap = {'array': (lambda x: np.array(x)), 'list': (lambda x: list(x)),
+            'tuple': (lambda x: tuple(tuple(y) if isinstance(y, list) else y for y in x))}[container]
+    # ---- sweep keys -------------------------------------------------------------------------------------------------
+    mdtype = case.get('mdtype', 'float64')        # dtype of the measurements
+    scale = float(case.get('scale', 1.0))         # unit of the measurements (float types only)
+    tunit = case.get('tunit', [0.0, 0.5])         # time = offset + step * tid, or 'int': integer time axis
+    ldtype = case.get('ldtype')                   # dtype of the 'run' labels (array container)
+    rev = case.get('korder') == 'rev'             # the descriptor dicts are filled in reversed key order
+    vec = case.get('vec', [])                     # axes carrying a vector-valued (2-D) descriptor in addition
+    assert scale == 1.0 or mdtype not in _INT_TYPES
     rows, cols = [('o', i) for i in oid], [('c', i) for i in chid]
     times = [('t', i) for i in tid] if temporal else [None]
     val = {}
@@ -420,28 +483,51 @@ def _build(case):
     for i, o in enumerate(oid):
         for j, c in enumerate(chid):
             for k, t in enumerate(tid):
-                meas[i, j, k] = 100.0 * o + 10.0 * c + t
-                val[(rows[i], cols[j], times[k])] = 100.0 * o + 10.0 * c + t
-    obs_l = dict(oid=oid, cond=case['cond'], run=case['run'])
+                x = _sentinel(mdtype, o, c, t, (i, j, k), (no, nc, len(tid)))
+                meas[i, j, k] = x
+                val[(rows[i], cols[j], times[k])] = x
+    meas = (scale * meas).astype(mdtype)
+    run = [float(x) for x in case['run']] if ldtype and 'float' in ldtype else case['run']
+    obs_l = dict(oid=oid, cond=case['cond'], run=run)
     ch_l = dict(chid=chid, roi=case['roi'])
+    if 'obs' in vec:
+        obs_l['ovec'] = [[o, 10 * o] for o in oid]
+    if 'channel' in vec:
+        ch_l['cvec'] = [[0.5 * c, -1.0 * c, 7.0] for c in chid]
     desc = dict(subj=7, sess='s1')
+
+    def order(dct):
+        return dict(reversed(list(dct.items()))) if rev else dct
+
+    def real(dct):
+        out = {n: wrap(l) for n, l in order(dct).items()}
+        if ldtype and 'run' in out and container == 'array':
+            out['run'] = np.array(dct['run'], dtype=ldtype)
+        return out
     obs = {n: dict(zip(rows, l)) for n, l in obs_l.items()}
     ch = {n: dict(zip(cols, l)) for n, l in ch_l.items()}
+    tol = 1e-6 if mdtype == 'float32' else 1e-9
     if temporal:
-        tm_l = dict(time=[0.5 * t for t in tid])
+        if tunit == 'int':
+            tm_l = dict(time=[int(t) for t in tid])
+        else:
+            tm_l = dict(time=[tunit[0] + tunit[1] * t for t in tid])
         if case.get('tm_extra', True):
             tm_l.update(tid=tid, phase=case['phase'])
+        if 'time' in vec:
+            tm_l['tvec'] = [[t, t + 0.25] for t in tid]
         tm = {n: dict(zip(times, l)) for n, l in tm_l.items()}
-        tdesc = {n: wrap(l) for n, l in tm_l.items()}
-        if case.get('container', 'array') != 'list':
-            tdesc['time'] = np.array(tm_l['time'], dtype=float)
-        d = TemporalDataset(meas, descriptors=dict(desc), obs_descriptors={n: wrap(l) for n, l in obs_l.items()},
-                            channel_descriptors={n: wrap(l) for n, l in ch_l.items()}, time_descriptors=tdesc)
-        v = View(True, rows, cols, times, val, obs, ch, tm, desc, tlist=case.get('container', 'array') == 'list')
+        tdesc = {n: wrap(l) for n, l in order(tm_l).items()}
+        if container == 'array':
+            tdesc['time'] = np.array(tm_l['time'], dtype=int if tunit == 'int' else float)
+        d = TemporalDataset(meas, descriptors=order(dict(desc)), obs_descriptors=real(obs_l),
+                            channel_descriptors=real(ch_l), time_descriptors=tdesc)
+        v = View(True, rows, cols, times, val, obs, ch, tm, desc, tlist=container in ('list', 'tuple'), scale=scale, tol=tol,
+                 mint=mdtype in _INT_TYPES)
     else:
-        d = Dataset(meas[:, :, 0].copy(), descriptors=dict(desc), obs_descriptors={n: wrap(l) for n, l in obs_l.items()},
-                    channel_descriptors={n: wrap(l) for n, l in ch_l.items()})
-        v = View(False, rows, cols, times, val, obs, ch, {}, desc)
+        d = Dataset(meas[:, :, 0].copy(), descriptors=order(dict(desc)), obs_descriptors=real(obs_l),
+                    channel_descriptors=real(ch_l))
+        v = View(False, rows, cols, times, val, obs, ch, {}, desc, scale=scale, tol=tol, mint=mdtype in _INT_TYPES)
     return d, v
 
 
@@ -452,7 +538,12 @@ def _ties(vals):
     return len(_uniq(vals)) < len(vals)
 
 
-def _tag(op, cur):
+def _hasvec(dmap):
+    """a descriptor map {name -> {key -> value}} holds a vector-valued descriptor"""
+    return any(_isseq(x) for m in dmap.values() for x in list(m.values())[:1])
+
+
+def _tag(op, cur, bform='float'):
     """None: not admissible here;  'ok': admissible, no defect known;  other: admissible, label of the known defect
     that this step may trigger on the unchanged tree (the history ends there)"""
     k = op[0]
@@ -481,6 +572,8 @@ def _tag(op, cur):
         t = _tag1(op, v)
         if t is None:
             return None
+        if t == 'ok' and op[0] == 'bin_time' and bform == 'list':
+            t = K_BIN_PYLIST
         if t in REPAIRED:
             t = 'ok'          # defect repaired in /repo (fix: commit): an ordinary step again
         if t != 'ok' and worst == 'ok':
@@ -520,8 +613,10 @@ def _tag1(op, v):
             return None
         if 'bins' in v.obs or 'bins' in v.desc:
             return None      # text of the 'bins' descriptor is not modelled
-        if not op[2]:     # default channel detection = all float columns: not admissible with float descriptors
-            if v.fl or any(isinstance(x, float) for n in v.obs for x in v.obs[n].values()) \
+        if _hasvec(v.obs):
+            return K_VEC_DF      # (other channel descriptors than the naming one are not represented in the table)
+        if not op[2]:     # default channel detection = all float columns: not admissible with float descriptors / integer data
+            if v.mint or v.fl or any(isinstance(x, float) for n in v.obs for x in v.obs[n].values()) \
                     or any(isinstance(x, float) for x in v.desc.values()):
                 return None
         return 'ok'
@@ -549,13 +644,17 @@ def _tag1(op, v):
     if k == 'tao':
         if op[1] not in v.tm or any(n in v.obs for n in v.tm):
             return None
+        if _hasvec(v.obs) or _hasvec(v.tm):
+            return K_VEC_TAO
         if _ties([v.tm[op[1]][t] for t in v.times]):
             return K_TAO_DUP
         if len(v.rows) == 1 or len(v.cols) == 1:
             return K_TAO_SINGLE
         return 'ok'
     if k == 'tac':
-        return None if any(n in v.ch for n in v.tm) else 'ok'
+        if any(n in v.ch for n in v.tm):
+            return None
+        return K_VEC_TAC if _hasvec(v.ch) or _hasvec(v.tm) else 'ok'
     return None
 
 
@@ -563,8 +662,9 @@ def _absent(vals):
     return 'zz' if isinstance(vals[0], str) else -1
 
 
-def _candidates(cur, rich=True):
-    """the argument alphabet in a model state (JSON-able operations); `_tag` filters the admissible ones"""
+def _candidates(cur, rich=True, extra=False):
+    """the argument alphabet in a model state (JSON-able operations); `_tag` filters the admissible ones.
+    extra (sweep domains only): also the DataFrame round trip with the channel columns / the rows in another order"""
     v = cur[0]
     n = len(cur)
     ops = []
@@ -574,6 +674,8 @@ def _candidates(cur, rich=True):
             ops += [['merge', list(range(1, n)) + [0]], ['merge', list(range(n - 1))]]
     ops.append(['copy'])
     for by in v.obs:
+        if by in _VEC:
+            continue
         vals = _uniq([w.obs[by][r] for w in cur if by in w.obs for r in w.rows])
         ops += [['sort_by', by], ['split_obs', by]]
         if vals:
@@ -589,6 +691,8 @@ def _candidates(cur, rich=True):
     if 'cond' in v.obs and 'run' in v.obs:
         ops += [['nested_odd_even', 'cond', 'run'], ['nested_odd_even', 'run', 'cond']]
     for by in v.ch:
+        if by in _VEC:
+            continue
         vals = _uniq([w.ch[by][c] for w in cur if by in w.ch for c in w.cols])
         ops.append(['split_channel', by])
         if vals:
@@ -599,10 +703,12 @@ def _candidates(cur, rich=True):
         for chd in v.ch:
             if chd in ('chid',):
                 ops += [['df', chd, True], ['df', chd, False]]
+                if extra:
+                    ops += [['df', chd, True, 'perm'], ['df', chd, True, 'rows']]
         return ops
     ops.append(['tac'])
     for by in v.tm:
-        if by == 'bins':
+        if by == 'bins' or by in _VEC:
             continue
         vals = _uniq([v.tm[by][t] for t in v.times])
         ops += [['split_time', by], ['tao', by]]
@@ -628,14 +734,15 @@ def _candidates(cur, rich=True):
     return ops
 
 
-def _enumerate(base, depth, rich=True):
+def _enumerate(base, depth, rich=True, extra=False):
     """all admissible operation sequences of length 1..depth from the base (depth-first over model states);
     a history ends after a step that carries a defect label or yields an empty dataset; yields (ops, tag)"""
     _, v0 = _build(base)
+    bform = base.get('binform', 'float')
 
     def rec(cur, prefix):
-        for op in _candidates(cur, rich):
-            tag = _tag(op, cur)
+        for op in _candidates(cur, rich, extra):
+            tag = _tag(op, cur, bform)
             if tag is None:
                 continue
             yield prefix + [op], tag
@@ -646,12 +753,12 @@ def _enumerate(base, depth, rich=True):
     yield from rec([v0], [])
 
 
-def _random_history(base, seed, length):
+def _random_history(base, seed, length, extra=False):
     rs = np.random.RandomState(seed)
     _, v0 = _build(base)
     cur, ops = [v0], []
     for _ in range(length):
-        cands = [op for op in _candidates(cur) if _tag(op, cur) == 'ok']
+        cands = [op for op in _candidates(cur, True, extra) if _tag(op, cur, base.get('binform', 'float')) == 'ok']
         # keep the history alive: results must be non-empty; prefer not to collapse to a single cell too early
         good = []
         for op in cands:
@@ -673,34 +780,70 @@ def _random_history(base, seed, length):
 # =====================================================================================================
 @oracle('C11/history')
 def orc_history(case):
+    """sweep keys of the case: argform (list / tuple / ndarray for lists of values), binform (float / int / list), and the
+    call-sequence clauses  keep: after every step the datasets the step was applied to are still what they were (sort_by, the
+    only in-place operation, excepted), and at the end EVERY dataset the caller got in the course of the history still is what
+    it was when it was returned;  twice: the identical call again gives the identical result"""
     d, v = _build(case)
     msg = _diff(d, v)
     if msg:
         return f'base dataset inconsistent with its view (harness error): {msg}'
     cur_r, cur_v = [d], [v]
     ops = case.get('ops', [])
+    form, bform = case.get('argform', 'list'), case.get('binform', 'float')
+    keep, twice = case.get('keep', False), case.get('twice', False)
+    held = [[d, v]]          # every dataset object the caller holds, with the view it had when it was returned
     with warnings.catch_warnings():
         warnings.simplefilter('ignore')
         for i, op in enumerate(ops):
             where = f'step {i + 1}/{len(ops)} {op}'
-            if _tag(op, cur_v) is None:
+            if _tag(op, cur_v, bform) is None:
                 return f'{where}: harness error, operation not admissible in this state'
+            prev_r, prev_v = cur_r, cur_v
+            again = None
             try:
                 if op[0] == 'average_by':
                     for dd, vv in zip(cur_r, cur_v):
-                        msg = _check_average(dd, vv, op[1])
+                        for _ in range(2 if twice else 1):
+                            msg = _check_average(dd, vv, op[1])
+                            if msg:
+                                return f'{where}: {msg}'
+                    if keep:
+                        msg = _diff_list(prev_r, prev_v)
                         if msg:
-                            return f'{where}: {msg}'
+                            return f'{where}: the dataset the operation was applied to changed: {msg}'
                     continue
-                cur_r = _apply_real(op, cur_r)
+                cur_r = _apply_real(op, cur_r, form, bform)
+                if twice:
+                    again = _apply_real(op, cur_r if op[0] == 'sort_by' else prev_r, form, bform)
             except Exception as e:
                 return f'{where}: raised {type(e).__name__}: {e}'
             cur_v = _apply_model(op, cur_v)
+            if keep:
+                if op[0] == 'sort_by':       # in place: the held objects are now the sorted ones
+                    for h in held:
+                        for dd, vv in zip(cur_r, cur_v):
+                            if h[0] is dd:
+                                h[1] = vv
+                else:
+                    msg = _diff_list(prev_r, prev_v)
+                    if msg:
+                        return f'{where}: the dataset the operation was applied to changed: {msg}'
+                held += [[dd, vv] for dd, vv in zip(cur_r, cur_v) if not any(h[0] is dd for h in held)]
             if case.get('last_only') and i + 1 < len(ops):
                 continue
             msg = _diff_list(cur_r, cur_v)
             if msg:
                 return f'{where}: {msg}'
+            if again is not None:
+                msg = _diff_list(again, cur_v)
+                if msg:
+                    return f'{where}: the identical call again: {msg}'
+        for n, (dd, vv) in enumerate(held if keep else []):
+            msg = _diff(dd, vv)
+            if msg:
+                return (f'after the history {ops}: dataset #{n} held by the caller (shape {tuple(np.shape(dd.measurements))}) is no '
+                        f'longer what it was when it was returned: {msg}')
     return None
 
 
@@ -710,25 +853,35 @@ def _labelled(case):
     lab = list(case['labels'])
     if case.get('names'):
         lab = [case['names'][i] for i in lab]
+    ltype = case.get('ltype')                     # sweep: dtype of the label array (uint8, int16, float32, ...)
+    if ltype and 'float' in ltype:
+        lab = [float(x) for x in lab]
     n = len(lab)
     axis, temporal = case['axis'], case['kind'] == 'temporal'
     shape = [2, 2, 2]
     shape['obs channel time'.split().index(axis)] = n
     no, nc, nt = shape
-    wrap = np.array if case.get('container', 'array') == 'array' else list
+    wrap = {'array': np.array, 'list': list, 'tuple': tuple}[case.get('container', 'array')]
     ids = [list(range(1, no + 1)), list(range(11, nc + 11)), list(range(21, nt + 21))]
-    meas = np.array([[[1000.0 * o + 10.0 * c + 0.1 * t for t in ids[2]] for c in ids[1]] for o in ids[0]])
+    mdtype, scale = case.get('mdtype', 'float64'), float(case.get('scale', 1.0))      # sweep: typed data, units
+    if mdtype in _INT_TYPES:        # distinct integers; uint8 / int16: at the top of the range (a sum of two overflows)
+        top = {'uint8': 255.0, 'int16': 32767.0}.get(mdtype, 10000.0)
+        assert no * nc * nt <= 250
+        meas = top - np.arange(no * nc * nt, dtype=float).reshape(no, nc, nt)
+    else:
+        meas = np.array([[[1000.0 * o + 10.0 * c + 0.1 * t for t in ids[2]] for c in ids[1]] for o in ids[0]])
+    real = (scale * meas).astype(mdtype)
     od, cd, td = dict(oid=wrap(ids[0])), dict(chid=wrap(ids[1])), dict(time=np.array(ids[2], dtype=float), tid=wrap(ids[2]))
-    {'obs': od, 'channel': cd, 'time': td}[axis]['lab'] = wrap(lab)
+    {'obs': od, 'channel': cd, 'time': td}[axis]['lab'] = np.array(lab, dtype=ltype) if ltype and wrap is np.array else wrap(lab)
     if temporal:
-        return TemporalDataset(meas, descriptors={'subj': 1}, obs_descriptors=od, channel_descriptors=cd,
+        return TemporalDataset(real, descriptors={'subj': 1}, obs_descriptors=od, channel_descriptors=cd,
                                time_descriptors=td), meas, lab, ids
-    return Dataset(meas[:, :, 0].copy(), descriptors={'subj': 1}, obs_descriptors=od, channel_descriptors=cd), \
+    return Dataset(real[:, :, 0].copy(), descriptors={'subj': 1}, obs_descriptors=od, channel_descriptors=cd), \
         meas[:, :, :1], lab, ids
 
 
-def _cells(d, temporal):
-    """multiset of labelled measurements [(oid, chid, tid, obs-lab, value)] read off a real dataset"""
+def _cells_g(d, temporal, scale=1.0, digits=6):
+    """multiset of labelled measurements [(oid, chid, tid, obs-lab, value)] read off a real dataset (values in units of `scale`)"""
     out = []
     m = np.asarray(d.measurements)
     for i in range(m.shape[0]):
@@ -736,12 +889,12 @@ def _cells(d, temporal):
             for k in range(m.shape[2] if temporal else 1):
                 out.append((int(d.obs_descriptors['oid'][i]), int(d.channel_descriptors['chid'][j]),
                             int(d.time_descriptors['tid'][k]) if temporal else 21,
-                            round(float(m[i, j, k] if temporal else m[i, j]), 6)))
+                            round(float(m[i, j, k] if temporal else m[i, j]) / scale, digits)))
     return sorted(out)
 
 
-def _expected_cells(meas, ids, oi, ci, ti):
-    return sorted((ids[0][i], ids[1][j], ids[2][k], round(float(meas[i, j, k]), 6)) for i in oi for j in ci for k in ti)
+def _expected_cells_g(meas, ids, oi, ci, ti, digits=6):
+    return sorted((ids[0][i], ids[1][j], ids[2][k], round(float(meas[i, j, k]), digits)) for i in oi for j in ci for k in ti)
 
 
 @oracle('C11/labels')
@@ -755,6 +908,19 @@ def orc_labels(case):
     n = len(lab)
     full = [list(range(meas.shape[0])), list(range(meas.shape[1])), list(range(meas.shape[2]))]
     distinct = _uniq(lab)
+    # sweep keys: unit and dtype of the measurements (`meas` holds the values in units of scale), form of a list of values
+    scale, f32 = float(case.get('scale', 1.0)), case.get('mdtype') == 'float32'
+    vform = {'list': list, 'tuple': tuple, 'ndarray': np.array}[case.get('argform', 'list')]
+
+    def _cells(p, temporal):
+        return _cells_g(p, temporal, scale, 2 if f32 else 6)
+
+    def _expected_cells(m, i, oi, ci, ti):
+        return _expected_cells_g(m, i, oi, ci, ti, 2 if f32 else 6)
+
+    def state():       # what the caller can see of the input: labelled cells, labels and ids in order
+        return (_cells(d, temporal), [str(x) for x in labels_of(d)],
+                [int(x) for x in d.obs_descriptors['oid']], [int(x) for x in d.channel_descriptors['chid']])
 
     def sel(idx):
         s = [list(x) for x in full]
@@ -764,6 +930,7 @@ def orc_labels(case):
     def labels_of(p):
         return list({'obs': p.obs_descriptors, 'channel': p.channel_descriptors,
                      'time': getattr(p, 'time_descriptors', None)}[axis]['lab'])
+    before = state()
     with warnings.catch_warnings():
         warnings.simplefilter('ignore')
         if what == 'split':
@@ -810,7 +977,8 @@ def orc_labels(case):
                         continue
                     p = d.subset_time('lab', value, value)
                 else:
-                    p = {'obs': d.subset_obs, 'channel': d.subset_channel}[axis]('lab', value)
+                    p = {'obs': d.subset_obs, 'channel': d.subset_channel}[axis]('lab', vform(value) if isinstance(value, list)
+                                                                                 else value)
                 idx = [i for i in range(n) if _match(lab[i], value)]
                 got_ids = [int(x) for x in {'obs': p.obs_descriptors['oid'], 'channel': p.channel_descriptors['chid'],
                                             'time': getattr(p, 'time_descriptors', {}).get('tid', [])}[axis]]
@@ -841,49 +1009,78 @@ def orc_labels(case):
             for i, u in enumerate(values):
                 idx = [k for k in range(n) if _eq(lab[k], u)]
                 want = np.mean([meas[k, :, 0] for k in idx], axis=0)
-                if not all(_eq(a, b) for a, b in zip(avg[i], want)):
-                    return f'average for label {u!r} is {list(avg[i])}; mean of rows {idx} labelled {u!r} is {list(want)}'
+                if not all(_eq(a / scale, b, 1e-6 if f32 else 1e-9) for a, b in zip(avg[i], want)):
+                    return (f'average for label {u!r} is {list(avg[i])}' + (f' (in units of {scale:g})' if scale != 1.0 else '')
+                            + f'; mean of rows {idx} labelled {u!r} is {list(want)}')
                 if not _eq(n_obs[i], len(idx)):
                     return f'n_obs for label {u!r} is {n_obs[i]}, {len(idx)} rows carry it'
         else:
             return f'harness error: unknown check {what}'
+    if state() != before:
+        return f'{what}: the dataset it was applied to is no longer what it was (labelled cells / labels / ids changed)'
     return None
 
 
 @oracle('C11/bin-time')
 def orc_bin(case):
+    """sweep keys: tunit [offset, step] (time point i of case['time'] is offset + step * i, the bins likewise; both are computed
+    by the same expression, so that membership is exact), tform (container / dtype of the time descriptor: array, list, tuple,
+    int), bform (bins as float arrays, int arrays, python lists), mdtype / scale (dtype and unit of the measurements),
+    twice (the identical call again)"""
     from rsatoolbox.data import TemporalDataset
-    time = [float(t) for t in case['time']]
+    off, step = case.get('tunit', [0.0, 1.0])
+
+    def tval(t):
+        return off + step * float(t)
+    time = [tval(t) for t in case['time']]
     no, nc = case['n']
     nt = len(time)
-    meas = np.array([[[100.0 * o + 10.0 * c + t for t in range(1, nt + 1)] for c in range(1, nc + 1)] for o in range(1, no + 1)])
+    mdtype, scale = case.get('mdtype', 'float64'), float(case.get('scale', 1.0))
+    if mdtype == 'uint8':        # distinct, at the top of the range: the sum of two members overflows uint8
+        meas = np.array([[[255.0 - (10.0 * (o - 1) + 5.0 * (c - 1) + (t - 1)) for t in range(1, nt + 1)] for c in range(1, nc + 1)]
+                         for o in range(1, no + 1)])
+        assert nt <= 5 and nc <= 2
+    else:
+        base = 32000.0 if mdtype == 'int16' else 0.0
+        meas = np.array([[[base + 100.0 * o + 10.0 * c + t for t in range(1, nt + 1)] for c in range(1, nc + 1)]
+                         for o in range(1, no + 1)])
+    real = (scale * meas).astype(mdtype)
+    tol = 1e-6 if mdtype == 'float32' else 1e-9
     cond = [['x', 'y', 'x'][i % 3] for i in range(no)]
     roi = [['V1', 'IT'][j % 2] for j in range(nc)]
-    d = TemporalDataset(meas.copy(), descriptors={'subj': 1}, obs_descriptors={'cond': np.array(cond)},
-                        channel_descriptors={'roi': np.array(roi)}, time_descriptors={'time': np.array(time)})
-    bins = [[float(x) for x in b] for b in case['bins']]
-    b = d.bin_time('time', [np.array(x) for x in bins])
-    if tuple(b.measurements.shape) != (no, nc, len(bins)):
-        return f'binned measurements have shape {tuple(b.measurements.shape)}, expected {(no, nc, len(bins))}'
-    if list(b.obs_descriptors['cond']) != cond or list(b.channel_descriptors['roi']) != roi:
-        return 'obs / channel descriptors changed by bin_time'
-    if b.descriptors != {'subj': 1}:
-        return 'dataset descriptors changed by bin_time'
-    if len(b.time_descriptors['time']) != len(bins):
-        return f"time descriptor has {len(b.time_descriptors['time'])} entries for {len(bins)} bins"
-    for i, members_t in enumerate(bins):
-        members = [k for k in range(nt) if any(time[k] == x for x in members_t)]
-        for o in range(no):
-            for c in range(nc):
-                want = sum(meas[o, c, k] for k in members) / len(members)
-                if not _eq(b.measurements[o, c, i], want):
-                    return (f'bin {i} {members_t}: value at obs {o}, channel {c} is {b.measurements[o, c, i]}; the mean of the '
-                            f'time points {[time[k] for k in members]} listed in the bin is {want}')
-        tw = sum(time[k] for k in members) / len(members)
-        if not _eq(b.time_descriptors['time'][i], tw):
-            return f"bin {i} {members_t}: time label is {b.time_descriptors['time'][i]}, mean of its time points is {tw}"
-    if not np.array_equal(d.measurements, meas):
-        return 'bin_time modified the measurements of its input'
+    tform = case.get('tform', 'array')
+    tdesc = {'array': lambda x: np.array(x, dtype=float), 'list': list, 'tuple': tuple,
+             'int': lambda x: np.array([int(round(y)) for y in x], dtype=int)}[tform](time)
+    d = TemporalDataset(real.copy(), descriptors={'subj': 1}, obs_descriptors={'cond': np.array(cond)},
+                        channel_descriptors={'roi': np.array(roi)}, time_descriptors={'time': tdesc})
+    bins = [[tval(x) for x in b] for b in case['bins']]
+    for rep_ in range(2 if case.get('twice') else 1):
+        b = d.bin_time('time', _binform(bins, case.get('bform', 'float')))
+        again = ' (the identical call again)' if rep_ else ''
+        if tuple(b.measurements.shape) != (no, nc, len(bins)):
+            return f'binned measurements have shape {tuple(b.measurements.shape)}, expected {(no, nc, len(bins))}{again}'
+        if list(b.obs_descriptors['cond']) != cond or list(b.channel_descriptors['roi']) != roi:
+            return 'obs / channel descriptors changed by bin_time' + again
+        if b.descriptors != {'subj': 1}:
+            return 'dataset descriptors changed by bin_time' + again
+        if len(b.time_descriptors['time']) != len(bins):
+            return f"time descriptor has {len(b.time_descriptors['time'])} entries for {len(bins)} bins{again}"
+        for i, members_t in enumerate(bins):
+            members = [k for k in range(nt) if any(time[k] == x for x in members_t)]
+            for o in range(no):
+                for c in range(nc):
+                    want = sum(meas[o, c, k] for k in members) / len(members)
+                    if not _eq(b.measurements[o, c, i] / scale, want, tol):
+                        return (f'bin {i} {members_t}: value at obs {o}, channel {c} is {b.measurements[o, c, i]}'
+                                + (f' (in units of {scale:g}: {b.measurements[o, c, i] / scale})' if scale != 1.0 else '')
+                                + f'; the mean of the time points {[time[k] for k in members]} listed in the bin is {want}{again}')
+            tw = sum(time[k] for k in members) / len(members)
+            if not _eq(b.time_descriptors['time'][i], tw):
+                return f"bin {i} {members_t}: time label is {b.time_descriptors['time'][i]}, mean of its time points is {tw}{again}"
+        if not np.array_equal(d.measurements, real) or d.measurements.dtype != real.dtype:
+            return 'bin_time modified the measurements of its input'
+        if [float(x) for x in d.time_descriptors['time']] != [float(x) for x in tdesc] or list(d.time_descriptors) != ['time']:
+            return 'bin_time modified the time descriptors of its input'
     return None
 
 
@@ -896,17 +1093,31 @@ def orc_sort(case):
     if case.get('labels') is not None:
         lab = np.array(case['labels'])
     typ = case['type']
-    key = {'int': [int(x) for x in lab], 'float': [0.5 * int(x) for x in lab], 'str': ['abcdefgh'[int(x)] for x in lab]}[typ]
-    wrap = np.array if case.get('container', 'array') == 'array' else list
+    # sweep types: typed key arrays (uint8, int16 incl. negative values, float32), keys whose order is the reverse of the label
+    # order ('neg'), keys in extreme units ('tiny': steps of 5e-13, 'big': steps of 0.5 on an offset of 1e6), strings of
+    # unequal length ('str2'; their order is not that of their first characters' positions in the list)
+    key = {'int': [int(x) for x in lab], 'float': [0.5 * int(x) for x in lab], 'str': ['abcdefgh'[int(x)] for x in lab],
+           'uint8': [int(x) for x in lab], 'int16': [int(x) - 1 for x in lab], 'float32': [0.5 * int(x) for x in lab],
+           'neg': [-0.5 * int(x) for x in lab], 'tiny': [5e-13 * int(x) for x in lab], 'big': [1e6 + 0.5 * int(x) for x in lab],
+           'str2': [['b', 'ab', 'abc', 'a', 'ba', 'B', 'aa', ''][int(x)] for x in lab]}[typ]
+    wrap = {'array': np.array, 'list': list, 'tuple': tuple}[case.get('container', 'array')]
+    kwrap = (lambda x: np.array(x, dtype=typ)) if typ in ('uint8', 'int16', 'float32') and wrap is np.array else wrap
     oid = list(range(n))
     other = ['uvw'[i % 3] for i in range(n)]
+    mdtype = case.get('mdtype', 'float64')            # sweep: dtype of the measurements (values are moved, never changed)
     if case['kind'] == 'temporal':
         meas = np.array([[[10.0 * o + c + 0.1 * t for t in range(2)] for c in range(2)] for o in oid])
-        d = TemporalDataset(meas.copy(), obs_descriptors=dict(key=wrap(key), oid=wrap(oid), other=wrap(other)))
+        if mdtype in _INT_TYPES:
+            meas = np.array([[[10.0 * o + 2 * c + t for t in range(2)] for c in range(2)] for o in oid])
+        meas = meas.astype(mdtype)
+        d = TemporalDataset(meas.copy(), obs_descriptors=dict(key=kwrap(key), oid=wrap(oid), other=wrap(other)))
     else:
-        meas = np.array([[10.0 * o + c for c in range(2)] for o in oid])
-        d = Dataset(meas.copy(), obs_descriptors=dict(key=wrap(key), oid=wrap(oid), other=wrap(other)))
+        meas = np.array([[10.0 * o + c for c in range(2)] for o in oid]).astype(mdtype)
+        d = Dataset(meas.copy(), obs_descriptors=dict(key=kwrap(key), oid=wrap(oid), other=wrap(other)))
+    assert len({tuple(np.ravel(x).tolist()) for x in meas}) == n
     d.sort_by('key')
+    if case.get('twice'):         # call sequence: sorting the sorted dataset again changes nothing (stability)
+        d.sort_by('key')
     want = sorted(oid, key=lambda i: key[i])              # stable
     got = [int(x) for x in d.obs_descriptors['oid']]
     if sorted(got) != oid:
@@ -918,7 +1129,7 @@ def orc_sort(case):
     for pos, o in enumerate(got):
         if not _eq(gk[pos], key[o]) or d.obs_descriptors['other'][pos] != other[o]:
             return f'row {pos} is observation {o} but carries key {gk[pos]!r} / other {d.obs_descriptors["other"][pos]!r}'
-        if not np.array_equal(d.measurements[pos], meas[o]):
+        if not np.array_equal(d.measurements[pos], meas[o]) or d.measurements.dtype != meas.dtype:
             return f'row {pos} is labelled observation {o} but holds the measurements of another observation'
     if got != want:
         bad = next(i for i in range(n) if got[i] != want[i])
@@ -931,15 +1142,22 @@ def orc_sort(case):
 def orc_convert(case):
     from rsatoolbox.data import TemporalDataset, Dataset
     no, nc, nt = case['n']
-    wrap = np.array if case.get('container', 'array') == 'array' else list
+    wrap = {'array': np.array, 'list': list, 'tuple': tuple}[case.get('container', 'array')]
     oid, chid, tid = list(range(1, no + 1)), list(range(11, nc + 11)), list(range(21, nt + 21))
     cond = [['b', 'a', 'b'][i % 3] for i in range(no)]
     roi = [['y', 'x'][j % 2] for j in range(nc)]
-    time = [0.5 * t for t in tid]
+    # sweep keys: tunit [offset, step] of the time axis, mdtype / scale of the measurements (values are only moved: exact)
+    off, step = case.get('tunit', [0.0, 0.5])
+    time = [off + step * t for t in tid]
+    mdtype = case.get('mdtype', 'float64')
     meas = np.array([[[100.0 * o + 10.0 * (c - 10) + (t - 20) for t in tid] for c in chid] for o in oid])
+    if mdtype == 'uint8':
+        meas = 255.0 - np.arange(no * nc * nt, dtype=float).reshape(no, nc, nt)
+    meas = (float(case.get('scale', 1.0)) * meas).astype(mdtype)
+    assert len(set(meas.ravel().tolist())) == meas.size
     d = TemporalDataset(meas.copy(), descriptors={'subj': 3}, obs_descriptors=dict(oid=wrap(oid), cond=wrap(cond)),
                         channel_descriptors=dict(chid=wrap(chid), roi=wrap(roi)),
-                        time_descriptors=dict(time=np.array(time), tid=wrap(tid)))
+                        time_descriptors=dict(time=wrap(time) if wrap is tuple else np.array(time), tid=wrap(tid)))
     want = sorted((oid[i], cond[i], chid[j], roi[j], tid[k], time[k], float(meas[i, j, k]))
                   for i in range(no) for j in range(nc) for k in range(nt))
     if case['op'] == 'tao':
@@ -972,11 +1190,61 @@ def orc_convert(case):
                      for i in range(no) for c in range(nc * nt))
     if f.descriptors != {'subj': 3}:
         return f'dataset descriptors became {f.descriptors}'
+    if not np.array_equal(d.measurements, meas) or d.measurements.dtype != meas.dtype \
+            or [float(x) for x in d.time_descriptors['time']] != time or [int(x) for x in d.obs_descriptors['oid']] != oid:
+        return 'the conversion changed the temporal dataset it was applied to'
     if got != want:
         bad = next((g, w) for g, w in zip(got, want) if g != w)
         return (f'the labelled measurements (oid, cond, chid, roi, tid, time, value) differ from the original: e.g. {bad[0]} '
                 f'where the original has {bad[1]}')
     return None
+
+
+_CHILD = r"""
+import json, sys
+import contracts.C11_c  # noqa: registers the oracles
+import rsatoolbox.data  # noqa: before the jobs are read, so that the interpreters start up side by side
+from vf.rt.harness import ORACLES
+out = []
+for name, case in json.load(sys.stdin):
+    try:
+        out.append(ORACLES[name](case))
+    except Exception as e:
+        out.append(f'exception {type(e).__name__}: {e}')
+json.dump(out, sys.stdout)
+"""
+
+
+@oracle('C11/fresh-interpreter')
+def orc_fresh(case):
+    """environment: a new interpreter started with another PYTHONHASHSEED (the order in which sets of descriptor names / labels
+    are iterated changes) satisfies the same oracles on the same cases; case = dict(hashseeds=[..], jobs=[[oracle, case], ..])"""
+    import json
+    import os
+    import subprocess
+    import sys
+    job = json.dumps(case['jobs'])
+    procs = []
+    for hs in case['hashseeds']:
+        env = dict(os.environ, PYTHONHASHSEED=str(hs), MPLBACKEND='Agg', PYTHONDONTWRITEBYTECODE='1',
+                   PYTHONPATH=os.pathsep.join(x for x in sys.path if x))
+        procs.append((hs, subprocess.Popen([sys.executable, '-c', _CHILD], stdin=subprocess.PIPE, stdout=subprocess.PIPE,
+                                           stderr=subprocess.PIPE, env=env, text=True)))
+    res = None
+    for hs, pr in procs:
+        try:
+            o, e = pr.communicate(job, timeout=300)
+        except subprocess.TimeoutExpired:
+            pr.kill()
+            res = res or f'PYTHONHASHSEED={hs}: the new interpreter did not finish within 300 s'
+            continue
+        if pr.returncode != 0:
+            res = res or f'PYTHONHASHSEED={hs}: the new interpreter failed: {e.strip().splitlines()[-1:]}'
+            continue
+        for (name, c), r in zip(case['jobs'], json.loads(o)):
+            if r is not None and res is None:
+                res = f'PYTHONHASHSEED={hs}: {name} on {json.dumps(c)[:600]}: {r}'
+    return res
 
 
 # =====================================================================================================
@@ -1146,6 +1414,280 @@ def tier_c(run, thorough):
         if not ops:
             continue
         bd.check(orc_history, dict(base, ops=ops), base['kind'], function=_hist_function(ops))
+    bd.done()
+    bds.append(bd)
+    bds += _sweeps(run, thorough)
+    return bds
+
+
+# =====================================================================================================
+# dimension sweeps (tools/SWEEP_BRIEF.md): the same oracles, inputs varied along further dimensions
+# =====================================================================================================
+_LABEL_FN = {('split', 'obs'): 'split_obs', ('split', 'channel'): 'split_channel', ('split', 'time'): 'split_time',
+             ('subset', 'obs'): 'subset_obs', ('subset', 'channel'): 'subset_channel', ('subset', 'time'): 'subset_time',
+             ('odd_even', 'obs'): 'odd_even_split', ('average', 'obs'): 'average_dataset_by'}
+_AXES = (('flat', 'obs'), ('flat', 'channel'), ('temporal', 'obs'), ('temporal', 'channel'), ('temporal', 'time'))
+
+
+def _label_cases(labels, extra, axes=_AXES):
+    for kind, axis in axes:
+        for what in ('split', 'subset', 'odd_even', 'average'):
+            if (what, axis) not in _LABEL_FN or (what == 'average' and kind != 'flat'):
+                continue
+            case = dict(labels=list(labels), names=None, container='array', kind=kind, axis=axis, what=what)
+            case.update(extra)
+            ic = f'{kind},{axis}'
+            if what == 'odd_even' and len(set(labels)) < 2:
+                ic = K_ODD_SINGLE
+            yield case, ic, _LABEL_FN[(what, axis)]
+
+
+def _sweeps(run, thorough):
+    bds = []
+
+    # ---- labels: containers, typed labels / data, units, argument forms, sizes ---------------------------------------
+    variants = [
+        ('tuple descriptors', dict(container='tuple')),
+        ('tuple descriptors, str labels, values as tuple', dict(container='tuple', names=['c', 'a', 'b'], argform='tuple')),
+        ('values as ndarray', dict(argform='ndarray', names=['c', 'a', 'b'])),
+        ('float labels in units of 1e-12', dict(names=[3e-12, 1e-12, 2e-12])),
+        ('float labels 0.25 apart on an offset of 1e6', dict(names=[1e6 + 0.5, 1e6, 1e6 + 0.25], argform='tuple')),
+        ('float32 labels incl. 0 and a negative value', dict(names=[0.5, -1.5, 0.0], ltype='float32')),
+        ('uint8 labels, uint8 data', dict(ltype='uint8', mdtype='uint8')),
+        ('int16 labels incl. a negative value, int16 data', dict(names=[300, -2, 0], ltype='int16', mdtype='int16')),
+        ('int64 data, str labels', dict(mdtype='int64', names=['c', 'a', 'b'])),
+        ('float32 data in units of 1e12', dict(mdtype='float32', scale=1e12)),
+        ('data in units of 1e-20', dict(scale=1e-20, names=['c', 'a', 'b'])),
+        ('data in units of 1e-26, list descriptors', dict(scale=1e-26, container='list')),
+        ('data in units of 1e9', dict(scale=1e9)),
+    ]
+    L = 5 if thorough else 3
+    seqs = [s_ for n in range(1, L + 1) for s_ in itertools.product(range(3), repeat=n)]
+    rs = np.random.RandomState(11)
+    more = [[int(x) for x in rs.randint(0, 3, n)] for n in ((6, 7, 8, 9) if thorough else (4, 5, 6, 7)) for _ in range(6)]
+    bd = Bounded(run, 'C11/labels[sweep]', 'C11/split-subset-merge-average/oracle/labels',
+                 'sweep of the labels oracle: ALL label sequences of length 1..%d over 3 values + 24 seeded sequences of length '
+                 '%s, each as: %s; long sequences (sizes): seeded sequences of length %s over 4 / 5 values (int, str, float labels; '
+                 'uint8 and float data); the dataset the operation is applied to must be unchanged afterwards' % (
+                     L, '6..9' if thorough else '4..7', '; '.join(t for t, _ in variants),
+                     '9, 16, 33, 40' if thorough else '9, 16, 33'), exhaustive=False, function='split_obs')
+    for _, extra in variants:
+        for labels in list(seqs) + more:
+            for case, ic, fn in _label_cases(labels, extra):
+                bd.check(orc_labels, case, ic, function=fn)
+    for n in ((9, 16, 33, 40) if thorough else (9, 16, 33)):
+        for k, names in ((4, None), (5, ['e', 'c', 'a', 'd', 'b']), (4, [2e-12, -1e-12, 0.0, 1e-12])):
+            for seed in range(3 if thorough else 1):
+                labels = [int(x) for x in np.random.RandomState(7 * n + k + seed).randint(0, k, n)]
+                for extra in (dict(names=names), dict(names=names, mdtype='uint8', container='tuple' if seed else 'array'),
+                              dict(names=names, mdtype='float32', scale=1e-12, argform='tuple')):
+                    for case, ic, fn in _label_cases(labels, extra, _AXES if seed == 0 and not extra.get('mdtype') else _AXES[:2]):
+                        bd.check(orc_labels, case, ic, function=fn)
+    bd.done()
+    bds.append(bd)
+
+    # ---- bin_time: units of the time axis, typed time axis / bins / data, containers, identical call again ---------------
+    NT = 5 if thorough else 3
+    bvars = [
+        ('time in units of 1e-12', dict(tunit=[0.0, 1e-12])),
+        ('time in units of 1e-12 from -2e-12', dict(tunit=[-2e-12, 1e-12], tform='list')),
+        ('time in steps of 1 on an offset of 1e6', dict(tunit=[1e6, 1.0])),
+        ('time in steps of 1e-3 on an offset of 1e3', dict(tunit=[1e3, 1e-3], tform='tuple')),
+        ('time in units of 1e9', dict(tunit=[0.0, 1e9])),
+        ('integer time axis and integer bins', dict(tform='int', bform='int')),
+        ('integer time axis, float bins, the call repeated', dict(tform='int', twice=True)),
+        ('time descriptor as tuple', dict(tform='tuple')),
+        ('time descriptor as list, uint8 data', dict(tform='list', mdtype='uint8')),
+        ('int16 data', dict(mdtype='int16')),
+        ('int64 data, integer time axis', dict(mdtype='int64', tform='int', bform='int')),
+        ('float32 data in units of 1e12', dict(mdtype='float32', scale=1e12)),
+        ('data in units of 1e-20, time in units of 1e-12', dict(scale=1e-20, tunit=[0.0, 1e-12])),
+        ('data in units of 1e-26', dict(scale=1e-26)),
+    ]
+    bd = Bounded(run, 'C11/bin-time[sweep]', 'C11/bin_time/oracle/means-of-members',
+                 'sweep of the bin-time oracle: ALL assignments of 1..%d time points to two bins (sorted and unsorted axis, shape '
+                 '(3,2)) plus the one-bin / singleton / three-bin covers, each as: %s' % (NT, '; '.join(t for t, _ in bvars)),
+                 exhaustive=False, function='bin_time')
+
+    def bin_cases():
+        for nt in range(1, NT + 1):
+            axes = [[float(t) for t in range(nt)]]
+            if nt >= 3:
+                axes.append([float(t) for t in {3: [2, 0, 1], 4: [2, 0, 3, 1], 5: [3, 0, 4, 1, 2]}[nt]])
+            for time in axes:
+                for assign in itertools.product(range(4), repeat=nt):
+                    b0 = [time[i] for i in range(nt) if assign[i] in (1, 3)]
+                    b1 = [time[i] for i in range(nt) if assign[i] in (2, 3)]
+                    if b0 and b1:
+                        yield dict(time=time, bins=[b0, b1], n=[3, 2])
+                yield dict(time=time, bins=[time], n=[2, 2])
+                yield dict(time=time, bins=[[t] for t in time[::-1]], n=[1, 2])
+                if nt >= 3:
+                    yield dict(time=time, bins=[time[0::3], time[1::3], time[2::3]], n=[2, 1])
+    for _, extra in bvars:
+        for case in bin_cases():
+            contiguous = all(_is_stretch(b, case['time']) for b in case['bins'])
+            bd.check(orc_bin, dict(case, **extra), 'contiguous-bins' if contiguous else 'non-contiguous-bins', function='bin_time')
+    if False:  # pending triage: bin_time,bins-as-python-lists
+        for case in bin_cases():
+            bd.check(orc_bin, dict(case, bform='list'), K_BIN_PYLIST, function='bin_time')
+    bd.done()
+    bds.append(bd)
+
+    # ---- sort_by: typed keys, keys in extreme units, containers, typed data, sorting twice ------------------------------
+    bd = Bounded(run, 'C11/sort-stable[sweep]', 'C11/sort_by/oracle/stable-permutation',
+                 'sweep of the sort oracle: key types uint8 / int16 (incl. negative) / float32 / descending floats / floats in '
+                 'steps of 5e-13 / floats in steps of 0.5 on an offset of 1e6 / strings of unequal length; all key sequences of '
+                 'length 2..4 over 2 values and seeded sequences of length 8..%d over 2..8 values; array / list / tuple descriptors; '
+                 'uint8 / int16 / float32 data; sort_by called twice; Dataset and TemporalDataset' % (64 if thorough else 40),
+                 exhaustive=False, function='sort_by')
+    for kind in ('flat', 'temporal'):
+        ic = 'flat' if kind == 'flat' else K_TSORT
+        fnn = 'Dataset.sort_by' if kind == 'flat' else 'TemporalDataset.sort_by'
+        for typ in ('uint8', 'int16', 'float32', 'neg', 'tiny', 'big', 'str2'):
+            for n in range(2, 5):
+                for labels in itertools.product(range(2), repeat=n):
+                    bd.check(orc_sort, dict(kind=kind, n=n, k=2, seed=0, labels=list(labels), type=typ, container='array'),
+                             ic if len(set(labels)) < n else kind, function=fnn)
+            for n in ([8, 17, 24, 40, 64] if thorough else [8, 17, 40]):
+                for k in ((2, 3, 8) if typ == 'str2' else (2, 4)):
+                    for seed in range(3 if thorough else 1):
+                        for extra in (dict(container='array'), dict(container='tuple', twice=True),
+                                      dict(container='list', mdtype='float32' if n > 25 else 'uint8'),
+                                      dict(container='array', mdtype='int16', twice=True)):
+                            bd.check(orc_sort, dict(dict(kind=kind, n=n, k=k, seed=seed, type=typ), **extra), ic, function=fnn)
+        for typ in ('int', 'float', 'str'):
+            for n in (5, 17, 33):
+                bd.check(orc_sort, dict(kind=kind, n=n, k=3, seed=1, type=typ, container='tuple', twice=True), ic, function=fnn)
+    bd.done()
+    bds.append(bd)
+
+    # ---- conversions: containers, typed data, units -------------------------------------------------------------------
+    cvars = [dict(container='tuple'), dict(mdtype='uint8'), dict(mdtype='int16', container='list'), dict(mdtype='float32', scale=1e12),
+             dict(scale=1e-20, tunit=[0.0, 1e-12]), dict(scale=1e-26, container='tuple', tunit=[1e6, 1.0]), dict(mdtype='int64', tunit=[-30.0, 1.0])]
+    bd = Bounded(run, 'C11/conversions[sweep]', 'C11/time_as_observations,time_as_channels/oracle/labelled-cells',
+                 'sweep of the conversions oracle: ALL shapes in {1,2,3}^3 with tuple descriptors; uint8 / int16 / int64 / float32 '
+                 'data; data in units of 1e-26, 1e-20, 1e12; time in units of 1e-12, on an offset of 1e6, starting below 0; the '
+                 'temporal dataset must be unchanged afterwards', exhaustive=False, function='time_as_observations')
+    for shape in itertools.product((1, 2, 3), repeat=3):
+        for extra in cvars:
+            for op in ('tao', 'tac'):
+                ic = 'generic-shape'
+                if op == 'tao' and (shape[0] == 1 or shape[1] == 1):
+                    ic = K_TAO_SINGLE
+                bd.check(orc_convert, dict(dict(n=list(shape), container='array', op=op), **extra), ic,
+                         function='time_as_observations' if op == 'tao' else 'time_as_channels')
+    bd.done()
+    bds.append(bd)
+
+    # ---- histories --------------------------------------------------------------------------------------------------------
+    B = _base_case
+    bases = [
+        # typed data
+        B('flat', (4, 3, 1), seed=21, mdtype='int16', container='tuple', argform='tuple'),
+        B('temporal', (3, 2, 3), seed=22, mdtype='uint8', tm_extra=False, tmono=False, ldtype='uint8', tunit='int', binform='int'),
+        B('flat', (3, 2, 1), seed=23, mdtype='float32', scale=1e12, ldtype='float32', argform='ndarray', keep=True),
+        # units
+        B('temporal', (3, 2, 2), seed=24, scale=1e-20, tunit=[0.0, 1e-12], tm_extra=False, twice=True),
+        B('temporal', (2, 2, 3), seed=25, scale=1e9, tunit=[1e6, 1.0], tm_extra=False, tmono=False, container='list'),
+        B('flat', (3, 2, 1), seed=26, scale=1e-26, korder='rev', twice=True),
+        # containers / dict order / call sequences
+        B('temporal', (3, 2, 2), seed=27, container='tuple', korder='rev', argform='tuple', keep=True),
+        B('temporal', (2, 2, 2), seed=28, container='tuple', tm_extra=False, tunit='int', keep=True, twice=True),
+        B('flat', (4, 2, 1), seed=29, container='list', keep=True, twice=True),
+        # vector-valued descriptors carried along (never used as `by`)
+        B('flat', (3, 2, 1), seed=30, vec=['obs', 'channel']),
+        B('temporal', (2, 2, 2), seed=31, vec=['obs', 'channel', 'time'], container='list'),
+        B('temporal', (2, 2, 2), seed=32, vec=['channel'], container='tuple', tm_extra=False),
+        B('temporal', (2, 2, 2), seed=33, vec=['obs']),
+    ]
+    if thorough:
+        bases += [
+            B('flat', (5, 3, 1), seed=41, mdtype='uint8', container='tuple', keep=True, twice=True),
+            B('temporal', (4, 2, 3), seed=42, mdtype='int16', tm_extra=False, tmono=False, tunit=[1e3, 1e-3], keep=True),
+            B('temporal', (3, 3, 4), seed=43, scale=1e-26, tunit=[-2e-12, 1e-12], tm_extra=False, tmono=False, twice=True),
+            B('temporal', (3, 2, 3), seed=44, vec=['obs', 'channel', 'time'], korder='rev', tmono=False, keep=True),
+            B('flat', (4, 3, 1), seed=45, vec=['obs', 'channel'], container='tuple', argform='tuple', twice=True),
+            B('temporal', (3, 2, 2), seed=46, mdtype='float32', scale=1e-12, ldtype='int16', argform='ndarray', keep=True, twice=True),
+        ]
+    bd = Bounded(run, 'C11/history[sweep]', 'C11/dataset-operations/oracle/model-based-history',
+                 'sweep of the history oracle: %s admissible operation sequences of length 1..2 (alphabet of _candidates plus the '
+                 'DataFrame round trip with the channel columns / the rows handed over in reversed order) from %d base datasets: '
+                 'int16 / uint8 / float32 data, data in units of 1e-26 / 1e-20 / 1e9 / 1e12, time in units of 1e-12 / on an offset '
+                 'of 1e6 / integer, typed label arrays, tuple / list descriptors, descriptor dicts in reversed key order, lists '
+                 'of values as tuple / ndarray, integer bins, vector-valued descriptors carried on each axis; call sequences: '
+                 'inputs unchanged after each step, every dataset returned in the course of the history unchanged at its end, the '
+                 'identical call again gives the identical result%s; %d seeded random histories of length <= 8 on such bases, with '
+                 'the call-sequence clauses' % (
+                     'ALL' if thorough else 'all of length 1 and every third of length 2 of the', len(bases),
+                     '; length 3 on the bases with at most 8 cells' if thorough else '', 400 if thorough else 40),
+                 exhaustive=False, function='Dataset operations', budget_s=600 if thorough else 20)
+    for base in bases:
+        cells = base['n'][0] * base['n'][1] * base['n'][2]
+        depth = 3 if (thorough and cells <= 8) else 2
+        kind = base['kind'] + ',sweep'
+        for ne, (ops, tag) in enumerate(_enumerate(base, depth, rich=True, extra=True)):
+            if bd.out_of_budget():
+                break
+            if not thorough and len(ops) > 1 and ne % 3 != bases.index(base) % 3:
+                continue
+            case = dict(base, ops=ops, last_only=not base.get('twice'))
+            if tag in PENDING:
+                if False:  # pending triage: the four classes of PENDING
+                    bd.check(orc_history, case, tag, function=_hist_function(ops))
+                continue
+            bd.check(orc_history, case, _hist_class(kind, tag), function=_hist_function(ops))
+    if False:  # pending triage: bin_time,bins-as-python-lists
+        base = B('temporal', (2, 2, 3), seed=34, tm_extra=False, binform='list')
+        for ops, tag in _enumerate(base, 1):
+            if tag == K_BIN_PYLIST:
+                bd.check(orc_history, dict(base, ops=ops), tag, function='bin_time')
+    # seeded random longer histories on swept bases, checked after every step, with the call-sequence clauses
+    n_rand = 400 if thorough else 40
+    for s_ in range(n_rand):
+        if bd.out_of_budget():
+            break
+        rs = np.random.RandomState(5000 + s_)
+        sweep = [dict(mdtype='int16'), dict(scale=1e-20, tunit=[0.0, 1e-12]), dict(container='tuple', argform='tuple'),
+                 dict(vec=['channel'] if s_ % 2 else ['obs', 'channel']), dict(mdtype='float32', scale=1e12, korder='rev'),
+                 dict(tunit='int', binform='int', mdtype='uint8')][s_ % 6]
+        if s_ % 2 == 0:
+            base = B('flat', (int(rs.randint(2, 7)), int(rs.randint(1, 5)), 1), seed=s_, keep=True, twice=(s_ % 4 == 0),
+                     **{k: v for k, v in sweep.items() if k not in ('tunit', 'binform')})
+        else:
+            base = B('temporal', (int(rs.randint(2, 6)), int(rs.randint(1, 4)), int(rs.randint(1, 5))), seed=s_,
+                     tm_extra=(s_ % 4 == 1), tmono=(s_ % 8 < 5), keep=True, twice=(s_ % 4 == 1), **sweep)
+        ops = _random_history(base, s_, 8, extra=True)
+        if ops:
+            bd.check(orc_history, dict(base, ops=ops), base['kind'] + ',sweep', function=_hist_function(ops))
+    bd.done()
+    bds.append(bd)
+
+    # ---- environment: new interpreters with other hash seeds -----------------------------------------------------------------
+    jobs = []
+    for labels in itertools.product(range(3), repeat=4):
+        if len(set(labels)) == 3:
+            for case, ic, fn in _label_cases(labels, dict(names=['c', 'a', 'b']), _AXES[:1] + _AXES[4:]):
+                if case['what'] != 'subset':
+                    jobs.append([orc_labels.oracle_name, case])
+    for s_ in range(0, 24 if thorough else 12):
+        base = B('flat', (5, 3, 1), seed=s_) if s_ % 2 == 0 else B('temporal', (4, 2, 3), seed=s_, tm_extra=(s_ % 4 == 1))
+        ops = _random_history(base, 900 + s_, 6, extra=True)
+        jobs.append([orc_history.oracle_name, dict(base, ops=ops)])
+    base = B('flat', (4, 3, 1), seed=3)
+    for ops in ([['split_obs', 'cond'], ['merge', [2, 0, 1]], ['df', 'chid', True]], [['nested_odd_even', 'cond', 'run'], ['df', 'chid', False]],
+                [['split_channel', 'roi'], ['pick', 0], ['df', 'chid', True, 'perm']], [['split_obs', 'run'], ['merge', [1, 0]], ['sort_by', 'cond']]):
+        jobs.append([orc_history.oracle_name, dict(base, ops=ops)])
+    bd = Bounded(run, 'C11/fresh-interpreter', 'C11/dataset-operations/oracle/fresh-interpreter',
+                 'new interpreters with PYTHONHASHSEED=%s run %d cases of the labels oracle (all label sequences of length 4 with 3 '
+                 'distinct str values; split+merge, odd_even, average) and of the history oracle (seeded histories of length <= 6, '
+                 'split / merge / DataFrame round trips)' % ('1, 2, 3, 4' if thorough else '1, 2', len(jobs)),
+                 exhaustive=False, function='Dataset operations')
+    for job in jobs:         # the same cases in this process: a failure here is not a matter of the environment
+        if _ORACLES[job[0]](job[1]) is not None:
+            raise AssertionError(f'harness error: fresh-interpreter job fails in this process: {job}')
+    bd.check(orc_fresh, dict(hashseeds=[1, 2, 3, 4] if thorough else [1, 2], jobs=jobs), 'fresh-interpreter',
+             function='Dataset operations')
     bd.done()
     bds.append(bd)
     return bds
